@@ -288,6 +288,13 @@ def _first_error(txt):
     return (m.group(0) if m else txt[:200]).replace('\n', ' ')[:200]
 
 
+def _r7(props, rule):
+    """the generated arms are reported under C07 (R07.5) when C07 asks for them, under their own property otherwise"""
+    if 'C07' in props and not ({'C15', 'C16'} & set(props)):
+        return 'R07.5'
+    return rule
+
+
 def R(props, pid, rule):
     return rule if pid in props else None
 
@@ -309,6 +316,8 @@ def _check_method(chk, F, t, m, mi, props):
     def ob(pid, rule, desc, ok, **kw):
         if pid in props:
             chk.ob(rule, desc, ok, config=cfg, fn=fn, site=kw.pop('site', site), **kw)
+        elif 'C07' in props and rule == 'R05.4':
+            chk.ob('R07.5', desc, ok, config=cfg, fn=fn, site=kw.pop('site', site), **kw)
 
     # ---------------- R05.1: one evaluation, own MockFn, receiver, inputs in order
     sites = sorted(set((b.defp, bb) for b, bb, _ in M.eval_sites))
@@ -493,12 +502,12 @@ def _check_method(chk, F, t, m, mi, props):
     # ---------------- R16: Unmock arm
     has_unmock = m['unmock'] in ('path', 'args')
     um = seen.get('Unmock', [])
-    if 'C16' in props:
+    if 'C16' in props or 'C07' in props:
         if has_unmock:
-            chk.ob('R16.1', '%s: a registered real function gives the method an Unmock arm' % where, bool(um), config=cfg, fn=fn, site=site + ':unmock-arm', what='unmock arm missing for receiver `%s`' % dict(_RECV)[m['recv']],
+            chk.ob(_r7(props, 'R16.1'), '%s: a registered real function gives the method an Unmock arm' % where, bool(um), config=cfg, fn=fn, site=site + ':unmock-arm', what='unmock arm missing for receiver `%s`' % dict(_RECV)[m['recv']],
                    found='no arm for Continuation::Unmock (falls through to report => CannotUnmock)', expected='Continuation::Unmock => %s(..)' % m['unmock_entry'])
         else:
-            chk.ob('R16.3', '%s: no registered function => no Unmock arm (CannotUnmock via report)' % where, not um, config=cfg, fn=fn, site=site + ':unmock-arm', what='unexpected unmock arm')
+            chk.ob(_r7(props, 'R16.3'), '%s: no registered function => no Unmock arm (CannotUnmock via report)' % where, not um, config=cfg, fn=fn, site=site + ':unmock-arm', what='unexpected unmock arm')
         for p, cls in um:
             fname = m['unmock_entry'].split('(')[0]
             calls = [e for e in p.calls(r'(^|::)%s$' % re.escape(fname))]
@@ -529,17 +538,17 @@ def _check_method(chk, F, t, m, mi, props):
                 okret = r is not None and (r[0] == 'call' and r[3] == e.data[3] or (M.is_async and mentions(p.outcome[1], lambda x: x[0] == 'call' and x[3] == e.data[3])))
                 if M.is_async and not okret and r is not None:
                     okret = _awaited(p, e, r) or _is_pending(p)
-                chk.ob('R16.1', '%s: the real function\'s result is returned unchanged%s' % (where, ' (awaited)' if M.is_async else ''), okret, config=cfg, fn=fn, site=site + ':unmock-ret', what='unmock result %s' % (show(r)[:60] if r else None))
-            chk.ob('R16.1', '%s: unmocking calls `%s` (the entry at this method\'s position) once, with the mock and the arguments as listed' % (where, m['unmock_entry']), ok, config=cfg, fn=fn, site=site + ':unmock-call',
+                chk.ob(_r7(props, 'R16.1'), '%s: the real function\'s result is returned unchanged%s' % (where, ' (awaited)' if M.is_async else ''), okret, config=cfg, fn=fn, site=site + ':unmock-ret', what='unmock result %s' % (show(r)[:60] if r else None))
+            chk.ob(_r7(props, 'R16.1'), '%s: unmocking calls `%s` (the entry at this method\'s position) once, with the mock and the arguments as listed' % (where, m['unmock_entry']), ok, config=cfg, fn=fn, site=site + ':unmock-call',
                    what='unmock call %s' % detail, found=detail)
 
     # ---------------- R15: CallDefaultImpl arm
     di = seen.get('CallDefaultImpl', [])
-    if 'C15' in props:
+    if 'C15' in props or 'C07' in props:
         if m['provided']:
-            chk.ob('R15.1', '%s: a provided method has a default-impl arm' % where, bool(di), config=cfg, fn=fn, site=site + ':default-arm', what='default-impl arm missing')
+            chk.ob(_r7(props, 'R15.1'), '%s: a provided method has a default-impl arm' % where, bool(di), config=cfg, fn=fn, site=site + ':default-arm', what='default-impl arm missing')
         else:
-            chk.ob('R15.1', '%s: a required method has no default-impl arm' % where, not di, config=cfg, fn=fn, site=site + ':default-arm', what='unexpected default-impl arm')
+            chk.ob(_r7(props, 'R15.1'), '%s: a required method has no default-impl arm' % where, not di, config=cfg, fn=fn, site=site + ':default-arm', what='unexpected default-impl arm')
         for p, cls in di:
             cand = []
             for e in p.calls():
@@ -573,8 +582,8 @@ def _check_method(chk, F, t, m, mi, props):
                 okret = r is not None and (r[0] == 'call' and r[3] == e.data[3] or mentions(p.outcome[1], lambda x: x[0] == 'call' and x[3] == e.data[3]))
                 if M.is_async and not okret and r is not None:
                     okret = _awaited(p, e, r) or _is_pending(p)
-                chk.ob('R15.1', '%s: the default body\'s result is returned unchanged' % where, okret, config=cfg, fn=fn, site=site + ':default-ret', what='default arm returns %s' % (show(r)[:60] if r else None))
-            chk.ob('R15.1', '%s: the default-impl arm runs the trait\'s own default body on the helper built from this mock, arguments in order' % where, ok, config=cfg, fn=fn, site=site + ':default-call', what='default-impl call %s' % detail, found=detail)
+                chk.ob(_r7(props, 'R15.1'), '%s: the default body\'s result is returned unchanged' % where, okret, config=cfg, fn=fn, site=site + ':default-ret', what='default arm returns %s' % (show(r)[:60] if r else None))
+            chk.ob(_r7(props, 'R15.1'), '%s: the default-impl arm runs the trait\'s own default body on the helper built from this mock, arguments in order' % where, ok, config=cfg, fn=fn, site=site + ':default-call', what='default-impl call %s' % detail, found=detail)
     # ---------------- R19.3: debug_inputs
     if 'C19' in props and len(info) == 1:
         _check_debug_inputs(chk, F, info[0], m, where, site)
@@ -795,7 +804,7 @@ def canon(v, inp):
             return ('c', x[1])
         return v
     if k == 'promoted':
-        return ('promoted',)
+        return ('promoted', v[2]) if len(v) > 2 and v[1] == 'val' else ('promoted',)
     return v
 
 
